@@ -521,7 +521,15 @@ func (e *Engine) runPath(h *HarnessSpec, fn *ssa.Function, pool *TermPool, s *So
 		}
 		ex.call(fn, nil)
 	}()
-	if ex.samples > 0 && len(ex.violations) == 0 && ex.incomplete == "" && witnessN > 0 {
+	hard := 0
+	for _, v := range ex.violations {
+		// unprotected-read candidates are confirmed or dropped at the end of the run; they do not
+		// disqualify the path as a reach witness
+		if !strings.HasPrefix(v.ID, "read-without-lock:") {
+			hard++
+		}
+	}
+	if ex.samples > 0 && hard == 0 && ex.incomplete == "" && witnessN > 0 {
 		// keep a model of this completed path as a reach witness
 		if in, obs, ok := ex.modelFor(ex.pool.Bool(true)); ok {
 			ex.witness = &Violation{Harness: h.Name, ID: "witness", Inputs: in, Kinds: ex.inputKinds(), Obs: obs, Path: append([]Decision{}, ex.taken...)}
